@@ -5,6 +5,7 @@ import VlsModel.Gen.FnApprover
 import VlsModel.Gen.FnApproveTrait
 import VlsModel.Gen.FnNodeAdd
 import VlsModel.Gen.FnNodeVelocity
+import VlsModel.Gen.FnApproverMemo
 import VlsModel.Lemmas.FnGen
 /-
 C12 — the hand-written model `Model/Velocity.lean` proved equal to the function bodies that
@@ -764,5 +765,77 @@ example : ((Node.new_full (PaymentHash := Nat) (ScriptBuf := Nat) (Xpub := Nat) 
         dbid_high_water_mark := 0, allowlist := [] } () 1 ()).state.fee_velocity_control.buckets.length)
     = (some 900, 24) := by decide
 end NodeVelocity
+
+/-! ## Round 10 (b4): `MemoApprover` (approver.rs) — the approver that remembers manual approvals (until now "not modelled")
+
+Area `ApproverMemo` (`fn_targets/ApproverMemo.b4.json`): `new`, `approve`, `approve_invoice`, `approve_keysend`
+(`approve_onchain` is tied by C08: `C08_fn_memo_approve_onchain`).  Stated on the generated definitions: a request is approved by
+the memo iff a memorised approval of the same kind matches it EXACTLY (invoice hash; payment hash and amount), otherwise the
+delegate (for vlsd: the velocity approver of `C12_fn_approve_invoice` / `_keysend`) decides; every request spends the whole memo
+(`drain(..)`), so one manual approval approves at most one request and never changes an amount.  Approvals by the memo are the
+user's manual approvals: for `C12_approver` they are delegate answers `true`, outside the automatic window bound. -/
+section ApproverMemo
+open VlsModel.Gen
+open VlsModel.Gen.FnApproverMemo (MemoApprover Approval)
+variable {A Invoice PaymentHash Transaction : Type}
+
+theorem C12_fn_memo_loop {α ρ : Type} (hit : α → Bool) (r : ρ) (f : Unit → α → Rs.M (Rs.Flow Unit ρ))
+    (hf : ∀ a, f () a = pure (if hit a then .ret r else .next ())) :
+    ∀ l : List α, Rs.loopM l () f = pure (if l.any hit then .inr r else .inl ()) := by
+  intro l
+  induction l with
+  | nil => rfl
+  | cons a rest ih =>
+    by_cases h : hit a = true
+    · simp [Rs.loopM, hf, h, bind, Except.bind, pure, Except.pure]
+    · have h' : hit a = false := by simpa using h
+      simpa [Rs.loopM, hf, h', bind, Except.bind, pure, Except.pure] using ih
+
+theorem C12_fn_memo_new (d : A) : (MemoApprover.new d : MemoApprover A Invoice PaymentHash Transaction) = ⟨d, []⟩ := rfl
+
+theorem C12_fn_memo_approve (m : MemoApprover A Invoice PaymentHash Transaction) (l : List (Approval Invoice PaymentHash Transaction)) :
+    m.approve l = ⟨m.delegate, l⟩ := rfl
+
+def memoHitKeysend [DecidableEq PaymentHash] (ph : PaymentHash) (amt : Nat) : Approval Invoice PaymentHash Transaction → Bool
+  | .KeySend h n => h == ph && n == amt
+  | _ => false
+
+def memoHitInvoice (ih : Invoice → List Nat) (inv : Invoice) : Approval Invoice PaymentHash Transaction → Bool
+  | .Invoice i => ih i == ih inv
+  | _ => false
+
+theorem C12_fn_memo_approve_keysend [DecidableEq PaymentHash] (dlg : A → PaymentHash → Nat → Bool)
+    (m : MemoApprover A Invoice PaymentHash Transaction) (ph : PaymentHash) (amt : Nat) :
+    MemoApprover.approve_keysend dlg m ph amt
+      = .ok (⟨m.delegate, []⟩, m.approvals.any (memoHitKeysend ph amt) || dlg m.delegate ph amt) := by
+  unfold MemoApprover.approve_keysend
+  dsimp only
+  rw [C12_fn_memo_loop (memoHitKeysend ph amt) ((⟨m.delegate, []⟩ : MemoApprover A Invoice PaymentHash Transaction), true) _
+    (by intro a; cases a <;> simp only [memoHitKeysend] <;> first | rfl | (split <;> simp_all))]
+  by_cases hh : m.approvals.any (memoHitKeysend ph amt) = true
+  · simp [hh, pure, Except.pure, bind, Except.bind]
+  · have hh' : m.approvals.any (memoHitKeysend ph amt) = false := by simpa using hh
+    simp [hh', pure, Except.pure, bind, Except.bind]
+
+theorem C12_fn_memo_approve_invoice (ih : Invoice → List Nat) (dlg : A → Invoice → Bool)
+    (m : MemoApprover A Invoice PaymentHash Transaction) (inv : Invoice) :
+    MemoApprover.approve_invoice ih dlg m inv
+      = .ok (⟨m.delegate, []⟩, m.approvals.any (memoHitInvoice ih inv) || dlg m.delegate inv) := by
+  unfold MemoApprover.approve_invoice
+  dsimp only
+  rw [C12_fn_memo_loop (memoHitInvoice ih inv) ((⟨m.delegate, []⟩ : MemoApprover A Invoice PaymentHash Transaction), true) _
+    (by intro a; cases a <;> simp only [memoHitInvoice] <;> first | rfl | (split <;> simp_all))]
+  by_cases hh : m.approvals.any (memoHitInvoice ih inv) = true
+  · simp [hh, pure, Except.pure, bind, Except.bind]
+  · have hh' : m.approvals.any (memoHitInvoice ih inv) = false := by simpa using hh
+    simp [hh', pure, Except.pure, bind, Except.bind]
+
+/-- non-vacuity: a memorised keysend (hash 7, 500 msat) approves exactly that request under a declining delegate, not another
+    amount, and is spent by either request -/
+example : MemoApprover.approve_keysend (A := Unit) (Invoice := Unit) (PaymentHash := Nat) (Transaction := Unit)
+      (fun _ _ _ => false) ⟨(), [.Invoice (), .KeySend 7 500]⟩ 7 500 = .ok (⟨(), []⟩, true)
+    ∧ MemoApprover.approve_keysend (A := Unit) (Invoice := Unit) (PaymentHash := Nat) (Transaction := Unit)
+      (fun _ _ _ => false) ⟨(), [.Invoice (), .KeySend 7 500]⟩ 7 501 = .ok (⟨(), []⟩, false) := ⟨rfl, rfl⟩
+end ApproverMemo
 
 end VlsModel.Props.C12Fn
